@@ -316,6 +316,7 @@ def run_kernel(ctx, ob, spec, rec):
         fn = spec.get_fn(ctx, inst)
         for shape in spec.shapes(ctx.tier, inst):
             ex = ctx.executor(spec.dumps, stubs=spec.stubs, max_paths=spec.max_paths, fuel=spec.fuel)
+            ex.deadline = time.time() + (1200 if ctx.tier == "quick" else 3600)      # per (instantiation, shape)
             inputs, pre = spec.sym_inputs(inst, shape)
             ok_pre, _ = ex.check(pre)
             if not ok_pre:
